@@ -73,12 +73,13 @@ def run_case(cls, key, seed, ctx):
         style = ["hard", "soft", "extreme"][j]
         h = {"hard": rng.integers(0, 2, size=ds.n).astype(float), "soft": rng.random(ds.n),
              "extreme": np.where(rng.random(ds.n) < 0.5, 0.0, 1.0) * (rng.random() < 0.5)}[style]
-        got = moment.gamma(ML.FixedPredictor(h, gen.pick(rng, ["ndarray", "series", "col"])))
+        pcont = gen.pick(rng, ["ndarray", "series", "col", "series_hostile"])
+        got = moment.gamma(ML.FixedPredictor(h, pcont, gen.pick(rng, ["reversed", "rolled", "offset"])))
         ref = RM.gamma(kind, ds.y, ds.g, h, ratio, ds.c)
         for ent, k in mapping.items():
             ctx.ev("gamma_entries_compared")
             ctx.check(close(got[ent], ref[k], 1e-10, 1e-12), "gamma_entry_differs_from_definition", entry=repr(ent), defined_as=repr(k),
-                      got=float(got[ent]), expected=ref[k], prediction=h.tolist(), wit=wit)
+                      got=float(got[ent]), expected=ref[k], prediction=h.tolist(), prediction_container=pcont, label_dtype=str(getattr(y, "dtype", type(y).__name__)), wit=wit)
     # a predictor may return its own stored float64 score array, the same object on every call: gamma must not depend on
     # how often it was asked, nor write into the caller's array
     hs = rng.random(ds.n)
@@ -139,7 +140,7 @@ def run_loss(ctx, rng):
         ctx.mark([which, repr(costs), ds.n], True, sample={**wit, "costs": costs})
         for style in ("hard", "soft"):
             h = rng.integers(0, 2, size=ds.n).astype(float) if style == "hard" else rng.random(ds.n)
-            got = m.gamma(ML.FixedPredictor(h, gen.pick(rng, ["ndarray", "series", "col"])))
+            got = m.gamma(ML.FixedPredictor(h, gen.pick(rng, ["ndarray", "series", "col", "series_hostile"]), gen.pick(rng, ["reversed", "rolled"])))
             ctx.ev("loss_gamma_compared")
             ctx.check(len(got) == 1 and close(got.iloc[0], RM.error_rate(ds.y, h, fp, fn), 1e-10, 1e-12),
                       "error_rate_gamma_differs_from_cost_weighted_error", costs=costs, got=repr(got), expected=RM.error_rate(ds.y, h, fp, fn),
@@ -162,7 +163,7 @@ def run_loss(ctx, rng):
     ctx.mark([which, lo, hi, ds.n, len(set(ds.g))], True, sample={**wit, "y_values": yv, "clip": [lo, hi]})
     for _ in range(2):
         h = np.round(rng.uniform(lo - 0.7, hi + 0.7, size=ds.n), 3)
-        got = m.gamma(ML.FixedPredictor(h))
+        got = m.gamma(ML.FixedPredictor(h, gen.pick(rng, ["ndarray", "series_hostile"]), gen.pick(rng, ["reversed", "rolled"])))
         ref = RM.group_loss(lname, yv, ds.g, h, lo, hi)
         ctx.check(set(map(repr, got.index)) == set(map(repr, ref.keys())), "group_loss_index_is_not_the_set_of_groups", got=list(map(repr, got.index)), wit=wit)
         for a, v in ref.items():
